@@ -226,11 +226,28 @@ Theorem C14_last_mode_rule : forall a n fixed, drops_last a = true -> NoDup fixe
 Proof. exact last_mode_updated. Qed.
 Print Assumptions C14_last_mode_rule.
 
-(* fixing every mode returns the initialisation: parafac's shortcut ... *)
-Theorem C14_all_fixed_shortcut : forall (M W X : Type) upd stop normf pre pre_on post ls_on ls_accept lsf lsw lsx a n budget tol (s : st M W X),
+(* fixing every mode returns the initialisation: parafac's shortcut -- which recognises ONLY the list written in increasing
+   order (`fixed_modes == list(range(ndim))`); definitional in the model ... *)
+Theorem C14_all_fixed_sorted_shortcut : forall (M W X : Type) upd stop normf pre pre_on post ls_on ls_accept lsf lsw lsx a n budget tol (s : st M W X),
   shortcut a = true -> run upd stop normf false pre pre_on post ls_on ls_accept lsf lsw lsx a n (seq 0 n) budget tol s = Ok s.
 Proof. exact @run_all_fixed_shortcut. Qed.
-Print Assumptions C14_all_fixed_shortcut.
+Print Assumptions C14_all_fixed_sorted_shortcut.
+
+(* ... any other duplicate-free list naming every mode leaves exactly the last mode to the algorithms that un-fix it
+   (parafac included when the list is not in increasing order) ... *)
+Theorem C14_full_list_leaves_last_mode : forall a n fixed, drops_last a = true -> NoDup fixed -> 0 < n ->
+  (forall m, m < n -> In m fixed) -> modes_list a n fixed = [n - 1].
+Proof. exact full_list_leaves_last. Qed.
+Print Assumptions C14_full_list_leaves_last_mode.
+
+(* ... so parafac(fixed_modes=[1, 0, 2]) updates mode 2 although every mode was declared fixed (genuine defect, known finding,
+   candidate repair build/fix_candidates/C14_parafac_all_fixed_any_order.diff) *)
+Theorem C14_all_fixed_permuted_refuted : exists (s s' : st (list nat) unit unit),
+  run (fun it m s => (nth m (facs s) [] ++ [it], tt)) (fun _ _ => false) (fun s => s) false (fun _ m s => nth m (facs s) []) (fun _ => false)
+      (fun _ _ => tt) (fun _ => false) (fun _ _ _ => false) (fun _ _ l c => c) (fun _ _ l c => c) (fun _ _ _ => tt)
+      Parafac 3 [1; 0; 2] 1 true s = Ok s' /\ NoDup [1; 0; 2] /\ (forall m, m < 3 -> In m [1; 0; 2]) /\ facs s' <> facs s.
+Proof. exact all_fixed_permuted_updates. Qed.
+Print Assumptions C14_all_fixed_permuted_refuted.
 
 (* ... the algorithms without a shortcut can be left without a mode to update only by a request that repeats the last
    mode; then, IF the call returns (it raises when it needs the last MTTKRP), it returns the initialisation ... *)
@@ -247,7 +264,8 @@ Theorem C14_hals_all_fixed : forall (M W X : Type) upd stop normf normalize pre 
 Proof. exact @hals_all_fixed_returns. Qed.
 Print Assumptions C14_hals_all_fixed.
 
-(* normalize_factors=True is outside the statement for a reason: it rewrites fixed factors too *)
+(* normalize_factors=True is outside the fixed-mode statement: with an ARBITRARY normalisation function the skeleton permits a
+   fixed factor to be rewritten (a statement about the skeleton, not about cp_normalize itself, which does rescale every factor) *)
 Theorem C14_fixed_modes_normalize_refuted : exists upd stop normf (s s' : st nat unit unit),
   run upd stop normf true (fun _ _ _ => 0) (fun _ => false) (fun _ _ => tt) (fun _ => false) (fun _ _ _ => false)
       (fun _ _ l c => c) (fun _ _ l c => c) (fun _ _ _ => tt) Parafac 2 [0] 1 true s = Ok s' /\ In 0 (eff_fixed Parafac 2 [0]) /\
